@@ -322,7 +322,8 @@ fn eval<P: Property>(p: &P, case: &P::Case) -> (Verdict, Obs) {
         Ok(v) => (v, obs),
         Err(msg) => {
             // where in the harness/library the panic came from is part of the signature
-            let site = msg.rsplit(" @ ").next().unwrap_or("").to_string();
+            let tree = std::env::var("HPKE_TREE").unwrap_or_else(|_| "/repo".into());
+            let site = msg.rsplit(" @ ").next().unwrap_or("").replace(&format!("{}/", tree.trim_end_matches('/')), "");
             (Verdict::fail(format!("{}/panic@{}", p.id(), site), format!("the check panicked: {}", msg)), obs)
         }
     }
